@@ -32,6 +32,13 @@ TEXT = {
             "denote() via iter_u64_digits()+sign(); RefNat order; receiver of a panicked op is re-initialised; x86_64 only",
             "deterministic simulation: seeded operation histories on a register file, canonical-form and indistinguishability invariants after every step",
             "DESIGN.md section 3, C04"),
+    "C11": ("the Newton starting point is treated as an environmental input: a hook lets the simulator replace it by what another platform or "
+            "configuration would supply (the no_std power-of-two guess, a libm that is off by ulps, off-by-one/two) and the fix-point retry "
+            "loop must converge to the same exact floor root, verified with an independent schoolbook power comparison; the same seeds are "
+            "replayed against the std and no_std library builds in both profiles and the result transcripts must be byte-identical. Sampled.",
+            "RefNat floor-root oracle; perturbations restricted to realistic ones; hook default = identity",
+            "deterministic simulation: fault injection on the Newton initial guess (environment seam) + identical transcripts across std/no_std builds",
+            "DESIGN.md section 3, C11"),
     "C14": ("fault enumeration: the complete list of (operation form, documented-failure class) sites is executed at the end of sampled histories "
             "in the debug and the release harness - must panic / checked variant must be None / negative sites must return; plus the complement "
             "as exploration: size-swarm histories across all internal thresholds where every non-failure step must return. Panics, fatal signals "
